@@ -6,6 +6,7 @@ use crate::case::*;
 use crate::common::*;
 use crate::gen::*;
 use crate::rng::Rng;
+use crate::world::FilePlan;
 
 pub struct C10;
 
@@ -213,9 +214,12 @@ impl Property for C10 {
             case.pieces.push(Piece::gap(gen_gap(rng, b"1", b"1", false)));
         }
         if !mode_whole {
+            // (now and then both selections carry the same title: rows are still compared on
+            // the selected values, not on what a row prints as)
+            let same_title = two && rng.chance(1, 6);
             case.opts.push(vec!["--select".into(), ".g=g".into()]);
             if two {
-                case.opts.push(vec!["--select".into(), ".h=h".into()]);
+                case.opts.push(vec!["--select".into(), if same_title { ".h=g".into() } else { ".h=h".into() }]);
             }
             if rng.chance(1, 4) {
                 case.opts.push(vec![format!("--output-style={}", rng.pick(&["csv", "text"]))]);
@@ -238,6 +242,11 @@ impl Property for C10 {
         }
         if rng.chance(1, 5) {
             case.opts.push(vec![format!("--take={}", rng.range(1, 6))]);
+        }
+        // the upstream redelivers a whole file: the stream arrives as a file argument that
+        // is named 2..3 times on the command line (hook H2)
+        if rng.chance(1, 8) && !case.opts.iter().flatten().any(|t| t.contains("&index-in-file")) {
+            case.set("file_times", rng.range(2, 3) as i64);
         }
         case.hash_seeds = (0..3).map(|_| rng.next_u64() >> 1).collect();
         case.set("pairs_seed", (rng.next_u64() >> 1) as i64);
@@ -279,6 +288,19 @@ impl Property for C10 {
         if redeliveries > 0 {
             ctx.stats.nontrivial = true;
         }
+        let file_times = case.param("file_times").max(0) as usize;
+        if file_times >= 2 {
+            ctx.stats.probe("whole file redelivered (same path named again)");
+            ctx.stats.nontrivial = true;
+            if ctx_rows {
+                // every reading contributes rows with new ordinals
+                let mut all = Vec::new();
+                for _ in 0..file_times {
+                    all.extend_from_slice(&stream);
+                }
+                firsts = all;
+            }
+        }
         let reference = ctx.exec(ref_spec(case, &firsts));
         if !reference.outcome.is_ok() {
             ctx.stats.invalid = true;
@@ -289,7 +311,16 @@ impl Property for C10 {
         uniq.opts.push(vec!["--unique".into()]);
         let mut first_out: Option<Vec<u8>> = None;
         for (si, hs) in case.hash_seeds.iter().enumerate() {
-            let mut spec = case_spec(&uniq, &stream);
+            let mut spec = if file_times >= 2 {
+                let paths = ctx.fresh_paths(1);
+                let mut sp = sim_files_spec(&uniq, &paths, &[stream.clone()], &[FilePlan { chunks: case.delivery.chunks.clone(), eintr: case.delivery.eintr.clone(), ..FilePlan::default() }]);
+                for _ in 1..file_times {
+                    sp.argv.push(paths[0].clone());
+                }
+                sp
+            } else {
+                case_spec(&uniq, &stream)
+            };
             spec.hash_seed = Some(*hs);
             let r = ctx.exec(spec);
             if !r.outcome.is_ok() {
@@ -388,7 +419,7 @@ impl Property for C10 {
             }
             let expr = if selected {
                 // rows are compared on (g, h): absent on both sides counts as equal
-                let two = has_opt_value(&case.opts, ".h=h");
+                let two = has_opt_value(&case.opts, ".h=h") || has_opt_value(&case.opts, ".h=g");
                 let part = |k: &str| {
                     format!("(? (and (nothing? #0.{k}) (nothing? #1.{k})) true (default (= #0.{k} #1.{k}) false))")
                 };
